@@ -18,7 +18,8 @@ Expected(e) ==
       [] e.fn = "Reply" -> Reply(e["in"])
       [] e.fn = "Request" -> Request(e["in"], IF e.out.ok THEN e.out.v.xid ELSE <<0, 0, 0>>)   \* fresh transaction id
 Agree(e) == /\ ~Has(e.out, "panic")
-            /\ IF e.fn = "Wire" THEN e.out.ok /\ Same(e.out.v, e["in"])          \* a chain survives a trip over the wire
+            /\ IF e.fn = "DecapIs" THEN e.out.ok /\ e.out.v = e.args.want /\ Decap(e["in"]) = Ok(e.args.want)   \* the level itself, as it is now
+               ELSE IF e.fn = "Wire" THEN e.out.ok /\ Same(e.out.v, e["in"])          \* a chain survives a trip over the wire
                ELSE LET x == Expected(e) IN e.out.ok = x.ok /\ (x.ok => e.out.v = x.v)
 
 ShardLo(k) == ((k - 1) * N) \div NShards + 1
